@@ -246,7 +246,7 @@ class HeterogeneousLinearModel(darsia.Model):
         if dofs is None or dofs == "all" or set(dofs) == set(["scaling", "offset"]):
             self.update(
                 scaling=parameters[: self.num_labels],
-                offset=parameters[self.num_labels :],
+                offset=parameters[self.num_labels : 2 * self.num_labels],
             )
         elif set(dofs) == set(["scaling"]):
             self.update(scaling=parameters[: self.num_labels])
